@@ -97,10 +97,12 @@ class CirclePixelRegion(PixelRegion):
         """
         Bounding box (`~regions.RegionBoundingBox`).
         """
-        xmin = self.center.x - self.radius
-        xmax = self.center.x + self.radius
-        ymin = self.center.y - self.radius
-        ymax = self.center.y + self.radius
+        # a NumPy float32 radius would make these sums single precision
+        radius = float(self.radius)
+        xmin = self.center.x - radius
+        xmax = self.center.x + radius
+        ymin = self.center.y - radius
+        ymax = self.center.y + radius
 
         return RegionBoundingBox.from_float(xmin, xmax, ymin, ymax)
 
